@@ -1,6 +1,7 @@
 package sim
 
 import (
+	"sync/atomic"
 	"time"
 
 	"pgregory.net/rapid"
@@ -229,4 +230,67 @@ func (m *Machine) ActScheduleWhileCompleting(t *rapid.T) {
 		m.settle("finish")
 		m.afterStep()
 	}
+}
+
+// someChange makes one acknowledged change of the reported state (the end of an executing task if there is one,
+// else an accepted schedule request) and reports whether it did.
+func (m *Machine) someChange(t *rapid.T) bool {
+	if open := m.openRuns(); len(open) > 0 {
+		m.deliver(open[0], Outcome{Kind: OutOK})
+		m.settle("finish")
+		m.afterStep()
+		return true
+	}
+	n := len(m.order())
+	m.ActSchedule(t)
+	return len(m.order()) > n
+}
+
+// ChangeDuringSlowSave places a change inside a store write that takes long: variant "loop" lets the save of the
+// idle persist loop itself be the slow one (the loop must have been idle), variant "explicit" a SaveToStore call
+// made while the loop pauses after a save. Either way the second change is acknowledged while the write is in
+// progress, after that save took its snapshot, and must reach the store by a later automatic save.
+func (m *Machine) ChangeDuringSlowSave(t *rapid.T, variant string) bool {
+	if !m.mem.Captured() {
+		return false // (the first automatic save is awaited by every settle; it must not be the blocked one)
+	}
+	gate := make(chan struct{})
+	released := false
+	release := func() {
+		if !released {
+			released = true
+			close(gate)
+		}
+	}
+	defer release()
+	if variant == "explicit" {
+		if !m.someChange(t) { // the loop saves at once and pauses
+			return false
+		}
+		m.stimulus("slow explicit save begins")
+		m.mem.SetGate(gate)
+		atomic.AddInt32(&m.mem.Explicit, 1)
+		done := make(chan struct{})
+		go func() { defer close(done); m.w.PR.SaveToStore() }()
+		defer func() { <-done; atomic.AddInt32(&m.mem.Explicit, -1) }()
+	} else {
+		m.stimulus("the next automatic save is slow")
+		m.mem.SetGate(gate)
+		if !m.someChange(t) {
+			return false
+		}
+	}
+	for limit := time.Now().Add(2 * time.Second); !m.mem.GateReached() && time.Now().Before(limit); {
+		time.Sleep(50 * time.Microsecond)
+	}
+	if !m.mem.GateReached() {
+		return false
+	}
+	ok := m.someChange(t)
+	m.stimulus("slow save ends")
+	release()
+	if ok {
+		m.w.Stats.hit("change-during-slow-save:" + variant)
+	}
+	return ok
 }
